@@ -210,12 +210,11 @@ def peaksGo (f : List Int → Int → List Int → Option Cyc) : List Int → Li
     match left with
     | [] => peaksGo f [cur] (next :: rest)
     | p :: _ =>
-      let tl := peaksGo f (cur :: left) (next :: rest)
       if cur > p ∧ cur > next then
         match f left cur (next :: rest) with
-        | some c => c :: tl
-        | none => tl
-      else tl
+        | some c => c :: peaksGo f (cur :: left) (next :: rest)
+        | none => peaksGo f (cur :: left) (next :: rest)
+      else peaksGo f (cur :: left) (next :: rest)
   | _, _ => []
 
 def rychlik (h : List Int) : List Cyc :=
